@@ -4,7 +4,7 @@ INVARIANT Theorem
 INVARIANT Emit
 CHECK_DEADLOCK FALSE
 CONSTANTS
-  MaxLen = 2
-  Slice = "core"
+  MaxLen = 3
+  Slice = "far"
   Ctxs = {"attr"}
-  Encs = {444, 885, 842}
+  Encs = {444}
